@@ -74,7 +74,7 @@ fn run(ctx: &mut Ctx) {
         let nb = 1 + rng.usize(4);
         let big = i % 40 == 12 || i % 194 == 13; // mostly fault-free runs (even i), now and then with an injected fault
         // fault plan: 0 none, then the single faults of the statement
-        let fault = if i % 2 == 0 { 0 } else { 1 + rng.below(8) };
+        let fault = if i % 2 == 0 { 0 } else { 1 + rng.below(9) };
         let fault_board = rng.usize(nb);
         let mut expected: Vec<Row> = Vec::new();
         let mut streams: Vec<(String, Vec<u8>)> = Vec::new();
@@ -172,6 +172,16 @@ fn run(ctx: &mut Ctx) {
                         fault_desc = "counter-0 marker with top bit set".into();
                         must_fail = true;
                     }
+                    9 if markers.len() >= 3 => {
+                        // a marker whose counter is off by two (its top bit, the parity of the counter, still fits): the
+                        // stream is well formed, the edges next to that marker are no longer enclosed by consecutive markers
+                        let k = markers[1 + rng.usize(markers.len() - 1)];
+                        let c = items[k].marker.unwrap();
+                        let c2 = if rng.bool() || c < 3 { c + 2 } else { c - 2 };
+                        items[k].bytes = marker_word(c2).to_vec();
+                        items[k].marker = Some(c2);
+                        fault_desc = format!("marker {} reads {}", c, c2);
+                    }
                     8 => {
                         // bare scaler tag at the very end (incomplete block of 4 bytes)
                         raw_tail = TAG.to_vec();
@@ -208,6 +218,7 @@ fn run(ctx: &mut Ctx) {
         let mut files: Vec<Vec<Event>> = (0..nfiles).map(|_| Vec::new()).collect();
         let mut pos = vec![0usize; nb];
         let mut serial = 0;
+        let frozen_serial = rng.chance(0.25); // every event carries serial number 0 (and the same header time)
         let mut fidx = 0;
         let mut idle_files = 0u64;
         let maxlen = if big { *rng.pick(&[5000usize, 60_000]) } else { *rng.pick(&[1usize, 3, 4, 5, 300, 300, 5000]) };
@@ -229,7 +240,9 @@ fn run(ctx: &mut Ctx) {
             if rng.chance(0.1) {
                 banks.push(("XXXX".into(), rng.bytes(7))); // foreign bank inside a chronobox event
             }
-            serial += 1;
+            if !frozen_serial {
+                serial += 1;
+            }
             files[fidx].push(Event { id: 4, serial, timestamp: 0, banks });
             if rng.chance(0.15) {
                 // events of other kinds interleaved, even with CBF-named banks: must be ignored
